@@ -105,39 +105,7 @@ func checkC19(p *Prog, r *Report) {
 			r.Fail(kp("WIRE", "app."+mname+"#anchor"), "anchor", "app/app.go", mname+" not found")
 			continue
 		}
-		// ranges over the global
-		rangesAll := false
-		for _, b := range fn.Blocks {
-			for _, in := range b.Instrs {
-				if u, ok := in.(*ssa.UnOp); ok {
-					if g, ok := u.X.(*ssa.Global); ok && g.Name() == "Upgrades" {
-						// loaded slice must feed len() and indexing of a loop (range lowering)
-						if refs := u.Referrers(); refs != nil {
-							hasLen, hasIdx := false, false
-							for _, rf := range *refs {
-								if c, ok := rf.(*ssa.Call); ok {
-									if bi, ok := c.Call.Value.(*ssa.Builtin); ok && bi.Name() == "len" {
-										hasLen = true
-									}
-								}
-								if _, ok := rf.(*ssa.IndexAddr); ok {
-									hasIdx = true
-								}
-							}
-							rangesAll = rangesAll || (hasLen && hasIdx)
-							// the store loader may look the planned descriptor up by name instead of walking the list itself
-							if mname == "setupUpgradeStoreLoaders" {
-								for _, rf := range *refs {
-									if c, ok := rf.(*ssa.Call); ok && c.Call.StaticCallee() != nil && len(c.Call.Args) == 2 && c.Call.Args[0] == ssa.Value(u) && finderByUpgradeName(p, c.Call.StaticCallee()) {
-										rangesAll = true
-									}
-								}
-							}
-						}
-					}
-				}
-			}
-		}
+		rangesAll := upgradesLoopCoversAll(p, fn, mname == "setupUpgradeStoreLoaders")
 		r.Check(rangesAll, kp("WIRE", "app."+mname+"#ranges-over-Upgrades"), "the set-up loop iterates the whole Upgrades slice", p.FnPos(fn), "for _, u := range Upgrades", mname+" does not range over the Upgrades variable")
 		okCall := false
 		var callI ssa.Instruction
@@ -437,6 +405,10 @@ func checkC19(p *Prog, r *Report) {
 		}
 		checkStartupCreatesNoContext(p, r, kp)
 	}
+
+	// D4e the in-place migrations the three data modules register run inside the upgrade block (RunMigrations): they rewrite no
+	// AOL, DID or PNFT entry
+	checkModuleMigrationsWriteNoData(p, r, kp)
 
 	// D4b the upgrade block cannot fail because of custom-module state: code of an upgrade package that (transitively) reads
 	// aol/did/pnft entries must not create errors or panic. A handler error aborts the upgrade block on every node; whether a
@@ -845,4 +817,122 @@ func finderByUpgradeName(p *Prog, g *ssa.Function) bool {
 		}
 	}
 	return nTrue > 0
+}
+
+
+// upgradesLoopCoversAll: fn walks the whole Upgrades slice — some load of the variable feeds len() and some load is indexed (the
+// lowering of `range Upgrades` and of `for i := 0; i < len(Upgrades); i++ { Upgrades[i] }`), and no len(Upgrades) is adjusted
+// arithmetically before it bounds the loop (`len(Upgrades)-1` drops the last descriptor). The store loader may instead look the
+// planned descriptor up with a verified by-name finder.
+func upgradesLoopCoversAll(p *Prog, fn *ssa.Function, allowFinder bool) bool {
+	hasLen, hasIdx, adjusted, viaFinder := false, false, false, false
+	for _, b := range fn.Blocks {
+		for _, in := range b.Instrs {
+			u, ok := in.(*ssa.UnOp)
+			if !ok {
+				continue
+			}
+			g, ok := u.X.(*ssa.Global)
+			if !ok || g.Name() != "Upgrades" || u.Referrers() == nil {
+				continue
+			}
+			for _, rf := range *u.Referrers() {
+				switch x := rf.(type) {
+				case *ssa.Call:
+					if bi, ok := x.Call.Value.(*ssa.Builtin); ok && bi.Name() == "len" {
+						hasLen = true
+						if x.Referrers() != nil {
+							for _, lu := range *x.Referrers() {
+								if bo, ok := lu.(*ssa.BinOp); ok {
+									switch bo.Op {
+									case token.LSS, token.GTR, token.LEQ, token.GEQ, token.EQL, token.NEQ:
+										// `i <= len` would run off the end (a panic at start-up, not a silent omission); only `<`/`>`/`!=` bound a full walk
+									default:
+										adjusted = true
+									}
+								}
+							}
+						}
+					}
+					if allowFinder && x.Call.StaticCallee() != nil && len(x.Call.Args) == 2 && x.Call.Args[0] == ssa.Value(u) && finderByUpgradeName(p, x.Call.StaticCallee()) {
+						viaFinder = true
+					}
+				case *ssa.IndexAddr:
+					hasIdx = true
+				}
+			}
+		}
+	}
+	return viaFinder || hasLen && hasIdx && !adjusted
+}
+
+
+// checkModuleMigrationsWriteNoData: every function handed to Configurator.RegisterMigration by x/aol, x/did or x/pnft reaches no
+// writer of the core families (AOL Set/Delete accessors of Owner/Topic/Writer/Record, the DID setter, x/nft mutators). A
+// migration may add a family of its own; rewriting existing entries ("repairing" counters, re-encoding documents) is a data
+// change made by the upgrade block.
+func checkModuleMigrationsWriteNoData(p *Prog, r *Report, kp func(string, string) string) {
+	aolM := buildAolModel(p)
+	didM := buildDidModel(p)
+	n := 0
+	for _, fn := range p.ModFuncs {
+		if fn.Blocks == nil || p.IsGenerated(fn) || !InPkgs(fn, "x/aol", "x/did", "x/pnft") {
+			continue
+		}
+		for _, cs := range callSites(fn) {
+			if !strings.HasSuffix(cs.Name, "Configurator.RegisterMigration") {
+				continue
+			}
+			args := cs.Instr.Common().Args
+			if len(args) == 0 {
+				continue
+			}
+			var mig *ssa.Function
+			hv := args[len(args)-1]
+			for {
+				if ct, ok := hv.(*ssa.ChangeType); ok {
+					hv = ct.X
+					continue
+				}
+				if mi, ok := hv.(*ssa.MakeInterface); ok {
+					hv = mi.X
+					continue
+				}
+				break
+			}
+			switch h := hv.(type) {
+			case *ssa.MakeClosure:
+				mig, _ = h.Fn.(*ssa.Function)
+			case *ssa.Function:
+				mig = h
+			}
+			n++
+			if mig == nil {
+				r.Undecided(kp("WMC", "migration@"+FuncName(fn)), "module migrations are functions the checker can resolve", p.Pos(cs.Instr.Pos()), "the migration handler is not a function value the checker can resolve")
+				continue
+			}
+			mig = resolveBound(mig)
+			bad := ""
+			for _, g := range p.ReachFrom([]*ssa.Function{mig}, func(f *ssa.Function) bool { return InModule(f) && !p.IsGenerated(f) }).Order {
+				if a := aolM.acc[g]; a != nil && (a.Op == "Set" || a.Op == "Delete") && isCoreAolFamily(a.Family) {
+					bad = FuncName(g) + " (" + a.Op + " " + a.Family + ")"
+				}
+				if didM.setters[g] {
+					bad = FuncName(g) + " (DID entry write)"
+				}
+				for _, c2 := range callSites(g) {
+					if c2.Callee != nil {
+						if m, ok := isNftKeeperMethod(resolveBound(c2.Callee)); ok {
+							if _, mut := nftMutators[m]; mut {
+								bad = "x/nft " + m + " (in " + FuncName(g) + ")"
+							}
+						}
+					}
+				}
+			}
+			r.Check(bad == "", kp("WMC", "migration:"+FuncName(mig)+"#rewrites-no-entry"), "the modules' in-place migrations rewrite no AOL, DID or PNFT entry: the data are exactly what they were before the upgrade block", p.FnPos(mig),
+				"no writer of a core family reachable", fmt.Sprintf("%s, registered as a store migration, reaches %s: the upgrade block rewrites entries of a populated chain (whatever the migration assumes about them)", FuncName(mig), bad))
+		}
+	}
+	r.Count("module-migrations-registered", n)
 }
